@@ -20,7 +20,9 @@ ASSUMPTIONS = ["gcc 12.2 -O0 -fsanitize=undefined -fsanitize-undefined-trap-on-e
                "type (unsigned: modulo; signed: the call is discarded when the result does not fit), every switch case ends in break, "
                "and/or/not are && || !, cast<T>(e) is (T)e; nothing relies on C's integer promotions or precedence (full parentheses)",
                "vf/sem/irinterp.py executes ppci's IR (validated against gcc by C01 and against ir2py by C24)",
-               "a program the C3 front end rejects with a diagnostic, or on which it crashes, is counted and listed, not judged"]
+               "a program the C3 front end rejects with a diagnostic is counted and listed, not judged (it is then not a program of the "
+               "language ppci defines); an internal error (any exception other than a compiler diagnostic) on a program whose C rendering "
+               "runs defined is a violation: no IR was generated"]
 CLAIM = {"technique": "bounded exhaustive enumeration of typed programs rendered as C3 and C, executed on the real front end, against gcc+UBSan",
          "engine": "K1 input enumeration vs gcc"}
 
@@ -181,10 +183,17 @@ def compare(p, case, k, gres, st, order):
         p.collect("c3_rejected", "%s: %s" % (generalise(case), st[1][:50]))
         return
     if st[0] == "crash":
+        # an internal error (not a diagnostic) on a program whose C rendering gcc compiles and runs without undefined behaviour:
+        # the front end produced no IR for a program of the language
         from vf.core import exc_key
         p.add()
         p.count("c3_crashes")
         p.collect("c3_crash_loci", exc_key(generalise(case), st[1]))
+        runs = [vi for vi, g in sorted(gres.items()) if g[0] == "ok"]
+        if runs:
+            vec = case["vectors"][runs[0]]
+            p.violation(LazyKey(case) + "/frontend-crash", "%s: c3_to_ir raises %s (%s) instead of compiling this program; gcc compiles and runs the C rendering"
+                        % (case["c3"].strip().replace("\n", " "), type(st[1]).__name__, exc_key("", st[1]).split("/", 2)[2]), witness(case, vec), order * 100)
         return
     m = st[1]
     text = case["c3"].strip().replace("\n", " ")
